@@ -3,7 +3,7 @@
 # Confirms in the scratch worktree /tmp/wt-<prop>: demo passes on the clean tree,
 # fails with the patch, patched tree still passes the baseline suite. Then
 # reverts the worktree.  Prints one summary line.
-p="$1"; n="$2"; wt=/tmp/wt-$p; d=/tmp/seeded-out/$p/$n
+p="$1"; n="$2"; wt=/tmp/wt-$p; d=${SEEDED_OUT:-/tmp/seeded-out}/$p/$n
 git -C $wt checkout -q -- . ; git -C $wt status --short | grep -v '^??' | head -3
 (cd $wt && timeout 600 /venv/bin/python $d/demo.py >/tmp/val-clean.out 2>&1); a=$?
 git -C $wt apply $d/patch.diff || { echo "$p/$n: patch does not apply"; exit 2; }
